@@ -6,7 +6,7 @@ AUDIT_IMPORTS = ["HypatiaProofs.Properties.C13"]
 THEOREMS = ["Hyp.Facet." + t for t in (
     "c13_refinement", "c13_membership", "c13_eq", "c13_any", "c13_all", "c13_docids", "c13_noteq", "c13_index_entry",
     "c13_unmatched_unknown", "c13_counts", "c13_counts_matches_spec", "c13_counts_omitted_absent", "c13_counts_unconfigured_absent")]
-CASES = {"quick": 1500, "thorough": 120000}
+CASES = {"quick": 6000, "thorough": 200000}
 BUDGET_S = {"quick": 40, "thorough": 700}
 RULE = ("facet sets of 1-7 names from an adversarial pool (a, ab, abc, b, bc, c, a:b, a:b:c, ab:c, bc:c, "
         "non-ASCII, empty segments; contains pairs whose concatenations coincide such as {ab,c}/{a,bc}); "
@@ -60,6 +60,9 @@ def gen_paths(rng, facets):
     pool = FACET_POOL + PATH_EXTRA
     if r < 0.1:
         return []
+    if len(facets) >= 2 and rng.random() < 0.25:
+        # whole facet names only: documents with different facet sets whose concatenations may coincide
+        return rng.sample(facets, rng.randrange(1, min(len(facets), 3) + 1))
     if r < 0.2:
         ps = [rng.choice(PATH_EXTRA) for _ in range(rng.randrange(1, 3))]            # mostly matching none
     elif r < 0.6:
@@ -149,8 +152,8 @@ def gen(rng, tier, idx):
     if rng.random() < 0.6:
         ids = ids[:rng.randrange(2, 9)]
     r = rng.random()
-    if r < 0.15:
-        facets = rng.choice([["ab", "c", "a", "bc"], ["a:b", "c", "a", "b:c"], ["a", "ab", "abc"],
+    if r < 0.25:
+        facets = rng.choice([["ab", "c", "a", "bc"], ["a", "bc", "ab", "c", "abc"], ["é", "中", "é:x", "x"], ["a:b", "c", "a", "b:c"], ["a", "ab", "abc"],
                              ["a", "a:b", "a:b:c", "a:b:c:x"], ["é", "é:中", "中"]])
         facets = facets[:rng.randrange(2, len(facets) + 1)]
     else:
@@ -230,6 +233,8 @@ class FacetImpl(object):
             idx.not_indexed_count(), idx.docids_count(), idx.word_count(), " ".join(e for _, e in uv))
 
     def tags(self):
+        if getattr(self, "stale", False):
+            return None
         try:
             items = list(self.idx._fwd_index.items())
             Set, TreeSet = self.fam.IF.Set, self.fam.IF.TreeSet
@@ -245,7 +250,22 @@ class FacetImpl(object):
         except (AttributeError, KeyError):
             return None
 
+    def latch(self):
+        """an empty posting left in the forward map is a bookkeeping (C06) matter; it can also change which
+        container a later insertion re-uses, so from then on the representation probe is not compared"""
+        try:
+            if any(len(p) == 0 for p in self.idx._fwd_index.values()):
+                self.stale = True
+        except AttributeError:
+            self.stale = True
+
     def execute(self, c):
+        r = self.execute1(c)
+        if c[0] in ("index", "reindex", "unindex", "indexstr"):
+            self.latch()
+        return r
+
+    def execute1(self, c):
         try:
             op = c[0]
             if op == "index":
@@ -297,9 +317,28 @@ def impl_run(hyp, case):
 
 
 def same(a, b):
+    # posting representations: the specification leaves them free ("tags-any"); the model's choice must
+    # still be the implementation's (a mismatch is correspondence drift, not a failing input)
     if isinstance(a, str) and a.startswith("tags"):
-        return a.strip() == b.strip()
+        return b == "tags-any" or a.strip() == b.strip()
     return a == b
+
+
+def neighbourhood(rng, case):
+    """a representation-only divergence was found: look nearby for an input on which an answer differs"""
+    facets = cfgdict(case).get("facets", [])
+    ids = sorted({c[1] for c in case["cmds"] if c[0] in ("index", "reindex", "unindex")})
+    cmds = []
+    for c in case["cmds"]:
+        if c[0] == "tags":
+            continue
+        cmds.append(c)
+        if c[0] not in ("q", "qx", "counts", "countsq"):
+            for f in list(facets) + [enc(x) for x in rng.sample(FACET_POOL, 3)]:
+                cmds.append(["q", "eq", f])
+            cmds.append(["q", "notall"])
+            cmds.append(["counts"] + ids + ["|"])
+    return dict(case, cmds=cmds)
 
 
 def nontrivial(case, outs):
